@@ -175,7 +175,7 @@ def replay(m, n, sy, pos, **kw):
         tree = transform.binarize(tree)
     cont = max(len(runs(cover(x))) - 1 for x in nodes) == 0
     if name != "gap" and not cont:
-        return ""       # top-down and in-order are defined for continuous trees only (excluded by the precondition)
+        return "~"       # top-down and in-order are defined for continuous trees only (excluded by the precondition)
     exp = _tmodel(tree)
     eh = []
     _theads(tree, eh)
